@@ -195,7 +195,7 @@ def date_config(draw, method=None, invalid=None, hints=()):
         if method == "inside_outside":
             opt("outside_standardize", _bool())
             opt("ignore_oldest_root", _bool())
-            if draw(st.integers(0, 19)) == 0:
+            if draw(st.integers(0, 9)) == 4:
                 kw["mutation_rate"] = None  # topology-only clock: documented for single trees
     method_kw = method
     if entry == "date" and method == "variational_gamma" and draw(st.booleans()):
@@ -246,6 +246,7 @@ def apply_invalid(draw, cfg, invalid):
         assert cfg["method"] != "variational_gamma"
         cfg["priors"] = None
         cfg["popsize"] = ("float", draw(st.sampled_from([1.0, 100.0, 1e4])))
+        cfg["use_Ne"] = False
         cfg["Ne_extra"] = draw(st.sampled_from([1.0, 100.0, 1e4]))
     elif invalid == "priors_and_population_size":
         assert cfg["method"] != "variational_gamma"
@@ -456,7 +457,7 @@ def argv_options(draw, subcommand, steer_valid=True):
             elif dest == "recombination_rate":
                 include = draw(st.integers(0, 19)) == 0
             elif dest == "epsilon":
-                include = include and (not vg or draw(st.integers(0, 3)) == 0)
+                include = include and (not vg or draw(st.integers(0, 7)) == 5)
             elif dest == "min_branch_length":
                 val = draw(st.sampled_from(VALUES[(subcommand, dest)][:6]))
         if not include:
